@@ -384,6 +384,19 @@ func changeEndorsements(ctx context.Context, cops ChangeOps, endorsement *epb.VM
 	return certPath, nil
 }
 
+var errDryRunNoFile = errors.New("dry run has no files")
+
+// dryRunOps stands in for the workspace during a dry run: it holds no files and discards every
+// write, so the change can be computed without touching version control.
+type dryRunOps struct{}
+
+func (dryRunOps) WriteOrCreateFiles(context.Context, ...*File) error { return nil }
+func (dryRunOps) ReadFile(context.Context, string) ([]byte, error)   { return nil, errDryRunNoFile }
+func (dryRunOps) SetBinaryWritable(context.Context, string) error    { return nil }
+func (dryRunOps) IsNotFound(err error) bool                          { return errors.Is(err, errDryRunNoFile) }
+func (dryRunOps) Destroy()                                           {}
+func (dryRunOps) TryCommit(context.Context) (any, error)             { return nil, nil }
+
 // Creates commit for extending the endorsement manifest and writing out the serialized endorsement
 // and attempts to submit. Submit may fail, thus "try".
 func tryChange(ctx context.Context, change func(context.Context, ChangeOps) (string, error)) error {
@@ -391,7 +404,7 @@ func tryChange(ctx context.Context, change func(context.Context, ChangeOps) (str
 	if err != nil {
 		return err
 	}
-	var cops ChangeOps
+	var cops ChangeOps = dryRunOps{}
 	if !ec.DryRun {
 		cops, err = ec.VCS.GetChangeOps(ctx)
 		if err != nil {
